@@ -155,4 +155,4 @@ NOT_APPLICABLE = {
 
 # designed (DESIGN.md section 5) but the harness is not finished: not claimed, never checked with a weaker technique
 NOT_BUILT = {pid: "harness not built yet (DESIGN.md section 7.1 order of construction)" for pid in
-             [ "C12", "C14", "C15", "C16", "C17", "C19"]}
+             ["C15", "C17", "C19"] if pid not in CLAIMED}
